@@ -102,6 +102,11 @@ def build_tree(w, sc):
         base = 'home/~'
         root = base
         inside_dir(base, 't')
+    elif layout == 'carts-lookalike':
+        base = 'backup/' + CARTS_DIRS[sc['lookalike']][len('home/'):] + \
+            '/game'
+        root = base
+        inside_dir(base, 'k')
     elif layout == 'carts-old':
         # a folder whose name merely extends the carts folder's name
         base = CARTS_DIRS['carts-linux'] + '-old'
@@ -148,7 +153,18 @@ def build_tree(w, sc):
         canary_dir(d)
     canary_dir('libs/subx')
     canary_file('libs/sub.lua')
-    return {'base': base, 'root': root, 'canaries': canaries}
+    aim_canaries = dict(canaries)     # (what seeded strings are aimed at)
+    if sc.get('style') == 'drive':
+        # directories named like a drive prefix (`c:` is an ordinary name on
+        # this platform) in every directory a run may have as its working
+        # directory, and one inside the base
+        for d in ('', 'work', os.path.dirname(base)):
+            for drv in ('c:', 'C:', 'd:'):
+                canary_dir((d + '/' if d else '') + drv)
+        w.put(base + '/c:/ok.lua', b'inside_drive_ok=1\n')
+        w.put(base + '/c:/canary.lua', b'inside_drive_c=1\n')
+    return {'base': base, 'root': root, 'canaries': canaries,
+            'aim_canaries': aim_canaries}
 
 
 # ---------------------------------------------------------------------------
@@ -300,6 +316,36 @@ def gen_c12(rng, tier, index):
         if rng.random() < 0.05:
             s = s.replace('/', rng.choice(['?', ';', '//']), 1)
         sc['S'] = s
+    # round 8 (drawn last, so that earlier scenarios stay what they were)
+    r8 = rng.random()
+    if mode == 'require' and r8 < 0.10:
+        # a load path on the command line AND another one in the environment:
+        # only the former is in force, also for the packages of packages.  The
+        # string names a library that only the environment's path reaches.
+        sc['lua_path'] = {'how': 'env+arg',
+                          'value': rng.choice(['?;?.lua', '?.lua;sub/?.lua',
+                                               '?;?.lua;sub/deep/?.lua']),
+                          'env_value': '$ROOT/libs/sub/?.lua;'
+                                       '$ROOT/libs/sub/?/init.lua'}
+        sc['nest'] = rng.random() < 0.7
+        sc['S'] = rng.choice(['lib1', 'pkg', 'lib1/lib1', 'pkg/init'])
+        sc['highbyte'] = 0
+        sc['backslash'] = False
+    elif r8 < 0.16:
+        # names that look like a drive prefix
+        sc['style'] = 'drive'
+        sc['S'] = rng.choice(['c:/canary', 'C:/canary', 'c:\\canary',
+                              'c:/init', 'd:/x', 'c:/ok', 'c:/canary.lua',
+                              'C:\\x'])
+        sc['backslash'] = False
+        sc['highbyte'] = 0
+    elif mode == 'include' and r8 < 0.22:
+        # a directory tree that is merely *named* like a carts folder, outside
+        # HOME (a backup, a synced copy): the cart's own directory is the root
+        sc['layout'] = 'carts-lookalike'
+        sc['lookalike'] = rng.choice(sorted(CARTS_DIRS))
+        if sc['cwd'] == 'work':
+            sc['cwd'] = 'root'
     return sc
 
 
@@ -346,7 +392,7 @@ def _derive_S(sc, w, info):
     base = info['base']
     if sc['mode'] == 'require' and sc.get('nest'):
         base = base + '/sub'
-    targets = sorted(info['canaries'])
+    targets = sorted(info.get('aim_canaries') or info['canaries'])
     if sc.get('warmup') and sc['mode'] == 'require' and sc['aim'] < 0.5:
         # what the warm-up build's load path (not ours) would resolve
         return ['lib1', 'pkg', 'lib1/lib1', 'pkg/init'][
@@ -983,6 +1029,38 @@ def gen_c20(rng, tier, index):
                 holder['lines'] = ls[:i] + [{
                     't': 'cblock', 'id': uid[0], 'level': lvl,
                     'inner': ls[i:j + 1]}] + ls[j + 1:]
+    # round 8 (drawn last, so that earlier scenarios stay what they were)
+    r8 = rng.random()
+    carts = [tg for tg in targets if tg.get('tabs') is not None]
+    luas = [tg for tg in targets if tg['kind'] == 'lua' and
+            not tg.get('fragment')]
+    if r8 < 0.10 and carts and 'second' not in sc:
+        # an included cart whose code has a line that reads `-->8` inside a
+        # multi-line string or comment: that is text, not a tab separator
+        tg = rng.choice(carts)
+        tab = rng.choice(tg['tabs'])
+        uid[0] += 1
+        tab[rng.randint(0, len(tab)):0] = rng.choice([
+            ['ms_%d=[[' % uid[0], '-->8', ' text ]]'],
+            ['--[[ note %d' % uid[0], '-->8', 'end of the note ]]'],
+            ['ms_%d=[==[' % uid[0], '-->8', '-->8', ']==]']])
+        sc['fake_tab_separator'] = True
+    elif r8 < 0.13 and luas and 'second' not in sc:
+        # an include file larger than 64 KiB, made of short lines whose
+        # length does not divide a power of two
+        tg = rng.choice(luas)
+        uid[0] += 1
+        tg['lines'] = ['b="\\nxy"'] * rng.choice([7300, 7400, 14700]) + \
+            ['big_%d=1' % uid[0]]
+        tg['final_newline'] = True
+        tg.pop('nested', None)
+        sc['big_include'] = True
+    elif r8 < 0.19 and (luas or carts):
+        # a backslash is an ordinary character of a file name here
+        tg = rng.choice(luas + carts)
+        d, nm = os.path.split(tg['rel'])
+        tg['rel'] = (d + '/' if d else '') + rng.choice(
+            ['lib\\', 'a\\b\\', '\\']) + nm
     return sc
 
 
